@@ -1326,6 +1326,9 @@ pub unsafe extern "C" fn SFileVerifyArchive(archive: HANDLE, flags: u32) -> bool
         };
         let file_list = file_list.unwrap_or_default();
 
+        // SFileVerifyFile takes the archive table lock itself
+        drop(archives);
+
         // Verify each file individually
         for file_entry in file_list {
             // Skip special files and directories
